@@ -9,8 +9,9 @@
    samples (and theorem 7 shows which observations are enough).
    Closed-form transformers of C14: the map form is PROVED from C14's definitions (theorems 8-12),
    with the fitted parameter `tfit t pfit` computed from the training panel and then held fixed. *)
-From Coq Require Import QArith List Bool ZArith Arith Permutation.
-Require Import SkV.Lib.Base SkV.C14.Model SkV.C16.Model SkV.C16.Proofs.
+From Coq Require Import String QArith List Bool ZArith Arith Permutation.
+Require Import SkV.Lib.Base SkV.C14.Model SkV.C16.Model SkV.C16.Proofs SkV.C16.Prog SkV.C16.Gen
+  SkV.C16.Bridge.
 Require SkV.C15.Model SkV.C15.Proofs.
 Import ListNotations.
 Open Scope nat_scope.
@@ -220,6 +221,93 @@ Theorem C16_closed_form_container_irrelevant : forall t n c T (x : K.nested Q) n
              tapply_rep t th to_np to_pd (K.RN x) = tapply t th (K.n_rows x).
 Proof. exact closed_form_container_irrelevant. Qed.
 Print Assumptions C16_closed_form_container_irrelevant.
+
+(* ---------------------------------------------------------------------------------------------- *)
+(* panel programs (Prog.v) and the table regenerated from the code (Gen.v, Bridge.v)               *)
+
+(* 18. every panel program is instancewise BY CONSTRUCTION: its batch-level denotation (loops over
+       range(n), array operations along non-instance axes, zips, conversions, fitted members) is
+       `map` of its row-level denotation - for every interpretation of the opaque symbols *)
+Theorem C16_panel_programs_are_instancewise : forall (V Theta : Type)
+    (interp : sym -> Theta -> tens V -> tens V) (cval : sym -> Theta -> tens V)
+    (cond : sym -> Theta -> bool) (p : prog),
+  exists f, forall th X, run V Theta interp cval cond p th X = map (f th) X.
+Proof. exact prog_is_instancewise. Qed.
+Print Assumptions C16_panel_programs_are_instancewise.
+
+(* 19. what the extractor emits (`raw`: axis numbers, index tuples, shapes as written) becomes a
+       program only through `compile`, which refuses every operation along the instance axis *)
+Theorem C16_translatable_is_instancewise : forall (V Theta : Type)
+    (interp : sym -> Theta -> tens V -> tens V) (cval : sym -> Theta -> tens V)
+    (cond : sym -> Theta -> bool) (r : raw),
+  translatable r = true ->
+  exists p t, compile r = Some (t, p) /\ iax t = 0 /\
+              forall th X, run V Theta interp cval cond p th X =
+                           map (rowfun V Theta interp cval cond p th) X.
+Proof. exact translatable_is_instancewise. Qed.
+Print Assumptions C16_translatable_is_instancewise.
+
+Theorem C16_instance_axis_operations_do_not_compile :
+  compile (RAxisOp "mean"%string 0%Z (Some true) (RConv (CCheckX true false) RInput)) = None /\
+  compile (RAxisOp "mean"%string (-3)%Z (Some true) (RConv (CCheckX true false) RInput)) = None /\
+  compile (RSqueeze 0%Z (RConv (CCheckX true false) RInput)) = None /\
+  compile (RIndex [IInt; IFull] RInput) = None /\
+  compile (RConcat 0%Z [RInput; RInput]) = None /\
+  compile (RMapRows "g"%string [RInput] [[IInt]]) = None /\
+  compile (RMapRows "g"%string [RListOf RInput] [[IIdx]]) = None /\
+  compile (RAlloc [DP; DP] "zeros"%string) = None /\
+  translatable (RListOf RInput) = false /\
+  translatable (RAxisOp "mean"%string (-1)%Z (Some true) (RConv (CCheckX true false) RInput)) = true.
+Proof. repeat split; vm_compute; reflexivity. Qed.
+Print Assumptions C16_instance_axis_operations_do_not_compile.
+
+(* 20. the table regenerated from the apply-time methods of the code on THIS run: every entry
+       marked Translated compiles with the instances along axis 0, delegates only to translated
+       own methods, and all the expected methods are among them *)
+Theorem C16_generated_table_checks :
+  table_ok gen_table = true /\
+  forallb (fun n => match lookup n gen_table with Some e => is_translated e | None => false end)
+          expected_translated = true.
+Proof. exact (conj gen_table_ok expected_are_translated). Qed.
+Print Assumptions C16_generated_table_checks.
+
+(* 21. hence every expected method (transform / predict / predict_proba as extracted) is row-wise *)
+Theorem C16_expected_methods_are_instancewise : forall (V Theta : Type)
+    (interp : sym -> Theta -> tens V -> tens V) (cval : sym -> Theta -> tens V)
+    (cond : sym -> Theta -> bool) name,
+  In name expected_translated ->
+  exists r deps p t, lookup name gen_table = Some (Translated r deps) /\
+                     compile r = Some (t, p) /\ iax t = 0 /\
+                     forall th X, run V Theta interp cval cond p th X =
+                                  map (rowfun V Theta interp cval cond p th) X.
+Proof. exact expected_methods_instancewise. Qed.
+Print Assumptions C16_expected_methods_are_instancewise.
+
+(* 22. permutation / single instance / sub-selection / row count for every panel program *)
+Theorem C16_program_corollaries : forall (V Theta : Type)
+    (interp : sym -> Theta -> tens V -> tens V) (cval : sym -> Theta -> tens V)
+    (cond : sym -> Theta -> bool) p th,
+  (forall X X', Permutation X X' ->
+     exists idx, Permutation idx (seq 0 (List.length X)) /\ X' = pick idx X /\
+                 run V Theta interp cval cond p th X' = pick idx (run V Theta interp cval cond p th X)) /\
+  (forall X i x, nth_error X i = Some x ->
+     run V Theta interp cval cond p th [x] = [rowfun V Theta interp cval cond p th x] /\
+     nth_error (run V Theta interp cval cond p th X) i = Some (rowfun V Theta interp cval cond p th x)) /\
+  (forall X idx, run V Theta interp cval cond p th (pick idx X) =
+                 pick idx (run V Theta interp cval cond p th X)) /\
+  (forall X, List.length (run V Theta interp cval cond p th X) = List.length X).
+Proof. exact program_corollaries. Qed.
+Print Assumptions C16_program_corollaries.
+
+(* 23. the conversions of the language are C15's *)
+Theorem C16_program_conversions_are_c15 : forall (V : Type) n c T (x : K.nested V) cn k,
+  wf_rows n c T x ->
+  map (emb_series V) (K.nested_to_2d x) = conv_batch V CNestedTo2d (map (emb_row V) (K.n_rows x)) /\
+  map (emb_row V) (K.nested_to_3d x) = conv_batch V CNestedTo3d (map (emb_row V) (K.n_rows x)) /\
+  map (emb_row V) (K.n_rows (K.a3_to_nested cn k (K.nested_to_3d x))) =
+    conv_batch V C3dToNested (map (emb_row V) (K.nested_to_3d x)).
+Proof. exact conversions_are_c15. Qed.
+Print Assumptions C16_program_conversions_are_c15.
 
 (* the hypotheses are satisfiable: a real permutation of a 3-instance unequal-length panel, the
    padded batch, the padded permuted batch, a well-formed nested frame *)
